@@ -15,6 +15,8 @@ package test
 //   fragment-whitespace  values with whitespace in every position that is inlined into the SQL text DAWGS hands to its
 //                        server-side traversal functions (nested quoting levels are decoded)
 //   param-types          parameters of every Go type in comparison, IN and property-map positions
+//   param-float-nonfinite  the NaN / +Inf / -Inf members of param-types (their own class so that they can be triaged apart)
+// VERIF_SEED only permutes the order of the added cases; VERIF_C04_TIMING=1 prints the time per phase to stderr.
 
 import (
 	"context"
@@ -318,59 +320,59 @@ func TestVerifBoundedSQLText(t *testing.T) {
 		fail(pos, format, args...)
 	}
 	sweep := func(class string, values []string) {
-	prefix := ""
-	if class != "" {
-		prefix = class + "/"
-	}
-	for _, pos := range positions {
-		// benign reference: the skeleton for a plain value; unquoted identifiers count as identifier slots
-		refQ, refP := pos.query("benign")
-		refSQL, err := translateToSQL(refQ, refP)
-		if err != nil {
-			perPosition[prefix+pos.name+" (never reaches SQL text: "+err.Error()+")"] = 0
-			continue
+		prefix := ""
+		if class != "" {
+			prefix = class + "/"
 		}
-		refToks, err := lexSQL(refSQL)
-		if err != nil {
-			report(class, pos.name, "benign SQL does not lex: %v", err)
-			continue
-		}
-		refSkel := skeleton(refToks)
-		refSkel = strings.ReplaceAll(refSkel, "ident:benign ", "I ")
-		for _, v := range values {
-			q, p := pos.query(v)
-			sql, err := translateToSQL(q, p)
+		for _, pos := range positions {
+			// benign reference: the skeleton for a plain value; unquoted identifiers count as identifier slots
+			refQ, refP := pos.query("benign")
+			refSQL, err := translateToSQL(refQ, refP)
 			if err != nil {
-				if strings.HasPrefix(err.Error(), "PANIC: ") {
-					report(class, pos.name, "value %q: the pipeline panics: %v", v, err)
+				perPosition[prefix+pos.name+" (never reaches SQL text: "+err.Error()+")"] = 0
+				continue
+			}
+			refToks, err := lexSQL(refSQL)
+			if err != nil {
+				report(class, pos.name, "benign SQL does not lex: %v", err)
+				continue
+			}
+			refSkel := skeleton(refToks)
+			refSkel = strings.ReplaceAll(refSkel, "ident:benign ", "I ")
+			for _, v := range values {
+				q, p := pos.query(v)
+				sql, err := translateToSQL(q, p)
+				if err != nil {
+					if strings.HasPrefix(err.Error(), "PANIC: ") {
+						report(class, pos.name, "value %q: the pipeline panics: %v", v, err)
+					}
+					continue // rejected: allowed by the property
 				}
-				continue // rejected: allowed by the property
-			}
-			cases++
-			perPosition[prefix+pos.name]++
-			toks, lerr := lexSQL(sql)
-			if lerr != nil {
-				report(class, pos.name, "value %q: emitted SQL does not lex (%v): %s", v, lerr, sql)
-				continue
-			}
-			if got := skeleton(toks); got != refSkel {
-				report(class, pos.name, "value %q changes the token structure of the statement: %s", v, sql)
-				continue
-			}
-			if pos.want == "free" {
-				continue
-			}
-			found := false
-			for _, tk := range toks {
-				if (pos.want == "string" && tk.kind == "string" || pos.want == "ident" && tk.kind == "qident") && tk.text == v {
-					found = true
+				cases++
+				perPosition[prefix+pos.name]++
+				toks, lerr := lexSQL(sql)
+				if lerr != nil {
+					report(class, pos.name, "value %q: emitted SQL does not lex (%v): %s", v, lerr, sql)
+					continue
 				}
-			}
-			if !found {
-				report(class, pos.name, "value %q is not read back by PostgreSQL as the value the query denoted: %s", v, sql)
+				if got := skeleton(toks); got != refSkel {
+					report(class, pos.name, "value %q changes the token structure of the statement: %s", v, sql)
+					continue
+				}
+				if pos.want == "free" {
+					continue
+				}
+				found := false
+				for _, tk := range toks {
+					if (pos.want == "string" && tk.kind == "string" || pos.want == "ident" && tk.kind == "qident") && tk.text == v {
+						found = true
+					}
+				}
+				if !found {
+					report(class, pos.name, "value %q is not read back by PostgreSQL as the value the query denoted: %s", v, sql)
+				}
 			}
 		}
-	}
 	}
 	sweep("", values)
 
@@ -381,12 +383,20 @@ func TestVerifBoundedSQLText(t *testing.T) {
 	}
 	longValues := xLongValues()
 	x.shuffle(longValues)
-	sweep("long-values", longValues)
-	x.fragmentSweep("long-values", xLongFragmentValues(), false)
-	x.listSweep("long-lists")
-	x.fragmentSweep("fragment-whitespace", xWhitespaceValues(maxLen), true)
-	x.fragmentSweep("fragment-whitespace", values, false)
-	x.paramSweep("param-types")
+	phase := func(name string, f func()) {
+		t0 := time.Now()
+		c0 := cases + x.cases
+		f()
+		if os.Getenv("VERIF_C04_TIMING") != "" {
+			fmt.Fprintf(os.Stderr, "phase %s: %d cases, %v\n", name, cases+x.cases-c0, time.Since(t0))
+		}
+	}
+	phase("long values", func() { sweep("long-values", longValues) })
+	phase("long values in traversal text", func() { x.fragmentSweep("long-values", xLongFragmentValues(), false) })
+	phase("long lists", func() { x.listSweep("long-lists") })
+	phase("whitespace in traversal text", func() { x.fragmentSweep("fragment-whitespace", xWhitespaceValues(maxLen), true) })
+	phase("hostile alphabet in traversal text", func() { x.fragmentSweep("fragment-whitespace", values, false) })
+	phase("parameter types", func() { x.paramSweep("param-types") })
 	cases += x.cases
 
 	res := map[string]any{"name": "sqltext", "bound": fmt.Sprintf("all strings up to length %d over %d hostile characters + %d crafted, %d positions; + long values (%d), long lists (sizes 1,2,16,17,18,40), whitespace values (%d) in traversal fragments, parameter Go types (%d)", maxLen, len(alphabet), 9, len(positions), len(longValues), len(xWhitespaceValues(maxLen)), len(xParamValues())), "cases": cases, "per_position": perPosition, "exhaustive": true, "failures": failures, "known_deviation_hits": knownHits}
@@ -394,5 +404,1071 @@ func TestVerifBoundedSQLText(t *testing.T) {
 	fmt.Println("BOUNDED-RESULT " + string(out))
 	if len(failures) > 0 {
 		t.Fail()
+	}
+}
+
+// =====================================================================================================================
+// Extension: long values, long lists, whitespace inside the SQL text handed to the server-side traversal functions,
+// parameter Go types. The oracle is the one above: the emitted SQL (and every piece of SQL text that travels as a
+// string, decoded through its own quoting level first) is re-read by lexSQL; its token skeleton must equal the skeleton
+// for a benign input of the same type and shape, and at every token where the benign run shows the benign marker the
+// hostile run must show exactly the hostile value (string token / quoted identifier / element of one array literal),
+// or the value must travel as a bound parameter unchanged.
+// =====================================================================================================================
+
+type xFrag struct {
+	name string // how the SQL text travels: "param:<name>" or "literal#<statement token index>"
+	text string
+	toks []sqlTok
+}
+
+type xRun struct {
+	sql     string
+	params  map[string]any
+	toks    []sqlTok // comments removed
+	frags   []xFrag
+	carrier map[int]bool // statement tokens whose string value is itself SQL text
+}
+
+func xStripComments(toks []sqlTok) []sqlTok {
+	out := make([]sqlTok, 0, len(toks))
+	for _, tk := range toks {
+		if tk.kind != "comment" {
+			out = append(out, tk)
+		}
+	}
+	return out
+}
+
+func xCopyParams(params map[string]any) map[string]any {
+	if params == nil {
+		return nil
+	}
+	out := make(map[string]any, len(params))
+	for k, v := range params {
+		out[k] = v
+	}
+	return out
+}
+
+// xTranslate pushes the query through the real pipeline; a panic is caught and returned as text.
+func xTranslate(q string, params map[string]any) (run *xRun, panicked string, rerr error) {
+	defer func() {
+		if r := recover(); r != nil {
+			run, panicked, rerr = nil, fmt.Sprint(r), nil
+		}
+	}()
+	model, err := frontend.ParseCypher(frontend.NewContext(), q)
+	if err != nil {
+		return nil, "", err
+	}
+	res, err := translate.Translate(context.Background(), model, newKindMapper(), xCopyParams(params), translate.DefaultGraphID)
+	if err != nil {
+		return nil, "", err
+	}
+	sql, err := translate.Translated(res)
+	if err != nil {
+		return nil, "", err
+	}
+	return &xRun{sql: sql, params: res.Parameters}, "", nil
+}
+
+// analyse lexes the statement and finds every piece of SQL text that travels as a string: string arguments of the
+// server-side traversal functions (<...>_harness(...)), given as a string parameter or as a string literal, plus every
+// other string-valued output parameter that is not one of the caller's own values. Each is lexed after decoding the
+// quoting level it travels in.
+func (r *xRun) analyse(supplied map[string]any) error {
+	toks, err := lexSQL(r.sql)
+	if err != nil {
+		return fmt.Errorf("the statement does not lex (%v)", err)
+	}
+	r.toks = xStripComments(toks)
+	r.carrier = map[int]bool{}
+	r.frags = nil
+	seen := map[string]bool{}
+	add := func(name, text string) error {
+		ft, err := lexSQL(text)
+		if err != nil {
+			return fmt.Errorf("the SQL text travelling as %s does not lex (%v): %s", name, err, text)
+		}
+		r.frags = append(r.frags, xFrag{name, text, xStripComments(ft)})
+		return nil
+	}
+	for i := 0; i+1 < len(r.toks); i++ {
+		if r.toks[i].kind != "ident" || !strings.HasSuffix(r.toks[i].text, "_harness") || r.toks[i+1].kind != "op" || r.toks[i+1].text != "(" {
+			continue
+		}
+		depth := 0
+	args:
+		for j := i + 1; j < len(r.toks); j++ {
+			tk := r.toks[j]
+			switch {
+			case tk.kind == "op" && tk.text == "(":
+				depth++
+			case tk.kind == "op" && tk.text == ")":
+				depth--
+				if depth == 0 {
+					break args
+				}
+			case tk.kind == "param" && strings.HasPrefix(tk.text, "@"):
+				name := tk.text[1:]
+				if sv, ok := r.params[name].(string); ok && !seen[name] {
+					seen[name] = true
+					if err := add("param:"+name, sv); err != nil {
+						return err
+					}
+				}
+			case tk.kind == "string" && tk.text != "":
+				r.carrier[j] = true
+				if err := add(fmt.Sprintf("literal#%d", j), tk.text); err != nil {
+					return err
+				}
+			}
+		}
+	}
+	var keys []string
+	for k := range r.params {
+		keys = append(keys, k)
+	}
+	sort.Strings(keys)
+	for _, k := range keys {
+		sv, ok := r.params[k].(string)
+		if !ok || seen[k] {
+			continue
+		}
+		own := false
+		for _, u := range supplied {
+			if us, ok := u.(string); ok && us == sv {
+				own = true
+			}
+		}
+		if !own {
+			if err := add("param:"+k, sv); err != nil {
+				return err
+			}
+		}
+	}
+	return nil
+}
+
+func (r *xRun) describe() string {
+	var b strings.Builder
+	b.WriteString(r.sql)
+	for _, f := range r.frags {
+		if strings.HasPrefix(f.name, "param:") {
+			b.WriteString("  [" + f.name + "] " + f.text)
+		}
+	}
+	s := b.String()
+	if len(s) > 2500 {
+		s = s[:2500] + "...(cut)"
+	}
+	return s
+}
+
+// xDecodeArrayLiteral reads a one-dimensional array literal with the rules of PostgreSQL's array_in: elements are
+// separated by commas inside braces; a double-quoted element may contain anything, with backslash making the next
+// character literal; in an unquoted element a backslash does the same, leading and trailing whitespace is dropped, and
+// an unquoted NULL (any case) is the null value (reported as nil). ok is false for anything that is not such a literal.
+func xDecodeArrayLiteral(s string) (elems []*string, ok bool) {
+	isSpace := func(c byte) bool { return c == ' ' || c == '\t' || c == '\n' || c == '\r' || c == '\v' || c == '\f' }
+	i := 0
+	skip := func() {
+		for i < len(s) && isSpace(s[i]) {
+			i++
+		}
+	}
+	skip()
+	if i >= len(s) || s[i] != '{' {
+		return nil, false
+	}
+	i++
+	skip()
+	if i < len(s) && s[i] == '}' {
+		i++
+		skip()
+		return []*string{}, i == len(s)
+	}
+	for {
+		skip()
+		if i >= len(s) {
+			return nil, false
+		}
+		switch {
+		case s[i] == '"':
+			i++
+			var b strings.Builder
+			closed := false
+			for i < len(s) {
+				if s[i] == '\\' {
+					if i+1 >= len(s) {
+						return nil, false
+					}
+					b.WriteByte(s[i+1])
+					i += 2
+					continue
+				}
+				if s[i] == '"' {
+					i++
+					closed = true
+					break
+				}
+				b.WriteByte(s[i])
+				i++
+			}
+			if !closed {
+				return nil, false
+			}
+			v := b.String()
+			elems = append(elems, &v)
+		case s[i] == '{' || s[i] == ',' || s[i] == '}':
+			return nil, false // nested array or empty unquoted element
+		default:
+			var b strings.Builder
+			keep := 0 // length of b that must survive trimming
+			escaped := false
+			for i < len(s) && s[i] != ',' && s[i] != '}' {
+				if s[i] == '"' || s[i] == '{' {
+					return nil, false
+				}
+				if s[i] == '\\' {
+					if i+1 >= len(s) {
+						return nil, false
+					}
+					b.WriteByte(s[i+1])
+					keep = b.Len()
+					escaped = true
+					i += 2
+					continue
+				}
+				b.WriteByte(s[i])
+				if !isSpace(s[i]) {
+					keep = b.Len()
+				}
+				i++
+			}
+			v := b.String()[:keep]
+			if v == "" {
+				return nil, false
+			}
+			if !escaped && strings.EqualFold(v, "null") {
+				elems = append(elems, nil)
+			} else {
+				elems = append(elems, &v)
+			}
+		}
+		skip()
+		if i >= len(s) {
+			return nil, false
+		}
+		if s[i] == ',' {
+			i++
+			continue
+		}
+		if s[i] == '}' {
+			i++
+			break
+		}
+		return nil, false
+	}
+	skip()
+	return elems, i == len(s)
+}
+
+type xExpect struct {
+	str          func(refText string) (string, bool)            // benign marker text -> the text the hostile run must show there
+	num          func(refText string) (func(string) bool, bool) // benign marker number -> test for the hostile run's number token
+	strictOthers bool                                           // every other string token must be unchanged
+}
+
+func xCompareToks(refT, gotT []sqlTok, carrier map[int]bool, where string, e xExpect) (n int, problem string) {
+	if len(refT) != len(gotT) {
+		return 0, fmt.Sprintf("%s: %d tokens instead of %d", where, len(gotT), len(refT))
+	}
+	for i := range refT {
+		rt, gt := refT[i], gotT[i]
+		switch rt.kind {
+		case "string":
+			if carrier[i] {
+				continue
+			}
+			if want, ok := xExpectStr(e, rt.text); ok {
+				n++
+				if gt.kind != "string" || gt.text != want {
+					return n, fmt.Sprintf("%s: token %d reads back as %s %q, the query denoted %q", where, i, gt.kind, gt.text, want)
+				}
+				continue
+			}
+			if refElems, ok := xDecodeArrayLiteral(rt.text); ok && len(refElems) > 0 && strings.HasPrefix(strings.TrimSpace(rt.text), "{") {
+				var wantList []string
+				markers := true
+				for _, re := range refElems {
+					if re == nil {
+						markers = false
+						break
+					}
+					w, ok := xExpectStr(e, *re)
+					if !ok {
+						markers = false
+						break
+					}
+					wantList = append(wantList, w)
+				}
+				if markers {
+					n += len(wantList)
+					gotElems, ok := xDecodeArrayLiteral(gt.text)
+					if gt.kind != "string" || !ok || len(gotElems) != len(wantList) {
+						return n, fmt.Sprintf("%s: token %d (%q) is not an array literal with the %d elements the query denoted", where, i, gt.text, len(wantList))
+					}
+					for k, ge := range gotElems {
+						if ge == nil || *ge != wantList[k] {
+							got := "NULL"
+							if ge != nil {
+								got = strconv.Quote(*ge)
+							}
+							return n, fmt.Sprintf("%s: token %d: array element %d reads back as %s, the query denoted %q (array literal %q)", where, i, k, got, wantList[k], gt.text)
+						}
+					}
+					continue
+				}
+			}
+			if e.strictOthers && (gt.kind != "string" || gt.text != rt.text) {
+				return n, fmt.Sprintf("%s: token %d, a literal that does not carry the value, changed from %q to %q", where, i, rt.text, gt.text)
+			}
+		case "ident", "qident":
+			if want, ok := xExpectStr(e, rt.text); ok {
+				n++
+				if (gt.kind != "qident" && gt.kind != "ident") || gt.text != want {
+					return n, fmt.Sprintf("%s: token %d reads back as %s %q, the query denoted the name %q", where, i, gt.kind, gt.text, want)
+				}
+			}
+		case "number":
+			if e.num != nil {
+				if test, ok := e.num(rt.text); ok {
+					n++
+					if gt.kind != "number" || !test(gt.text) {
+						return n, fmt.Sprintf("%s: token %d reads back as %s %q, not the number the parameter held", where, i, gt.kind, gt.text)
+					}
+				} else if gt.kind != "number" || gt.text != rt.text {
+					return n, fmt.Sprintf("%s: token %d, a number that is not the value, changed from %q to %q", where, i, rt.text, gt.text)
+				}
+			}
+		}
+	}
+	return n, ""
+}
+
+func xExpectStr(e xExpect, refText string) (string, bool) {
+	if e.str == nil {
+		return "", false
+	}
+	return e.str(refText)
+}
+
+// xCompareSlots: number of value positions in the statement and in travelling SQL text, and the first discrepancy.
+func xCompareSlots(ref, got *xRun, e xExpect) (stmtN, fragN int, problem string) {
+	stmtN, problem = xCompareToks(ref.toks, got.toks, ref.carrier, "statement", e)
+	if problem != "" {
+		return
+	}
+	if len(ref.frags) != len(got.frags) {
+		return stmtN, 0, fmt.Sprintf("%d pieces of SQL text instead of %d", len(got.frags), len(ref.frags))
+	}
+	for i := range ref.frags {
+		n, p := xCompareToks(ref.frags[i].toks, got.frags[i].toks, nil, "SQL text travelling as "+got.frags[i].name, e)
+		fragN += n
+		if p != "" {
+			return stmtN, fragN, p
+		}
+	}
+	return
+}
+
+// xCanon: a comparison form for parameter values (the bound value must be the supplied value).
+func xCanon(v any) any {
+	if v == nil {
+		return nil
+	}
+	rv := reflect.ValueOf(v)
+	switch rv.Kind() {
+	case reflect.String:
+		return "s:" + rv.String()
+	case reflect.Bool:
+		return rv.Bool()
+	case reflect.Int, reflect.Int8, reflect.Int16, reflect.Int32, reflect.Int64:
+		if d, ok := v.(time.Duration); ok {
+			return "d:" + d.String()
+		}
+		return "n:" + strconv.FormatInt(rv.Int(), 10)
+	case reflect.Uint, reflect.Uint8, reflect.Uint16, reflect.Uint32, reflect.Uint64:
+		return "n:" + strconv.FormatUint(rv.Uint(), 10)
+	case reflect.Float32, reflect.Float64:
+		return "f:" + strconv.FormatFloat(rv.Float(), 'g', -1, 64)
+	case reflect.Slice, reflect.Array:
+		if rv.Kind() == reflect.Slice && rv.IsNil() {
+			return []any{}
+		}
+		out := make([]any, rv.Len())
+		for i := range out {
+			out[i] = xCanon(rv.Index(i).Interface())
+		}
+		return out
+	case reflect.Map:
+		raw, err := json.Marshal(v)
+		if err != nil {
+			return fmt.Sprintf("unmarshalable:%#v", v)
+		}
+		var back any
+		_ = json.Unmarshal(raw, &back)
+		return map[string]any{"json": back}
+	case reflect.Struct:
+		if f := rv.FieldByName("Bytes"); f.IsValid() && f.Kind() == reflect.Slice && f.Type().Elem().Kind() == reflect.Uint8 {
+			var back any
+			if err := json.Unmarshal(f.Bytes(), &back); err == nil {
+				return map[string]any{"json": back}
+			}
+		}
+		return fmt.Sprintf("%T:%v", v, v)
+	default:
+		return fmt.Sprintf("%T:%v", v, v)
+	}
+}
+
+func xSameValue(supplied, out any) bool { return reflect.DeepEqual(xCanon(supplied), xCanon(out)) }
+
+type xHarness struct {
+	maxLen      int
+	report      func(class, pos, format string, args ...any)
+	perPosition map[string]int
+	skeleton    func([]sqlTok) string
+	rng         *rand.Rand
+	cases       int
+}
+
+func (x *xHarness) shuffle(v []string) {
+	if x.rng != nil {
+		x.rng.Shuffle(len(v), func(i, j int) { v[i], v[j] = v[j], v[i] })
+	}
+}
+
+// fullSkeleton: the token skeleton of the statement and of every piece of travelling SQL text. With numeric set (the
+// value under test is a number) number tokens are written as N; xCompareToks then compares every number token that is
+// not the value itself text for text.
+func (x *xHarness) fullSkeleton(r *xRun, numeric bool) string {
+	one := func(toks []sqlTok) string {
+		if !numeric {
+			return x.skeleton(toks)
+		}
+		c := append([]sqlTok(nil), toks...)
+		for i := range c {
+			if c[i].kind == "number" {
+				c[i].text = "N"
+			}
+		}
+		return x.skeleton(c)
+	}
+	var b strings.Builder
+	b.WriteString(one(r.toks))
+	for _, f := range r.frags {
+		b.WriteString("\n[" + f.name + "] " + one(f.toks))
+	}
+	return b.String()
+}
+
+type xRef struct {
+	run    *xRun
+	skel   string
+	in     map[string]any
+	stmtN  int
+	fragN  int
+	reason string // non-empty: the benign form never reaches SQL
+}
+
+// reference: the benign run of a shape.
+func (x *xHarness) reference(q string, params map[string]any, e xExpect) *xRef {
+	run, pan, err := xTranslate(q, params)
+	if pan != "" {
+		return &xRef{reason: "benign form panics: " + pan}
+	}
+	if err != nil {
+		return &xRef{reason: err.Error()}
+	}
+	if err := run.analyse(params); err != nil {
+		return &xRef{reason: "benign form: " + err.Error()}
+	}
+	ref := &xRef{run: run, in: params}
+	ref.skel = strings.ReplaceAll(x.fullSkeleton(run, e.num != nil), "ident:benign ", "I ")
+	ref.stmtN, ref.fragN, _ = xCompareSlots(run, run, xExpect{str: func(s string) (string, bool) {
+		if e.str == nil {
+			return "", false
+		}
+		if _, ok := e.str(s); ok {
+			return s, true
+		}
+		return "", false
+	}, num: func(s string) (func(string) bool, bool) {
+		if e.num == nil {
+			return nil, false
+		}
+		if _, ok := e.num(s); ok {
+			return func(g string) bool { return g == s }, true
+		}
+		return nil, false
+	}})
+	return ref
+}
+
+// verify: one hostile run against its benign reference. label is the printable hostile input.
+func (x *xHarness) verify(class, pos, countKey, label string, ref *xRef, q string, params map[string]any, e xExpect) {
+	got, pan, err := xTranslate(q, params)
+	if pan != "" {
+		x.report(class, pos, "%s: the pipeline panics (%s) for query %q", label, pan, q)
+		return
+	}
+	if err != nil {
+		return // rejected: allowed by the property
+	}
+	x.cases++
+	x.perPosition[class+"/"+countKey]++
+	if err := got.analyse(params); err != nil {
+		x.report(class, pos, "%s: %v; query %q; emitted: %s", label, err, q, got.describe())
+		return
+	}
+	if ref == nil || ref.run == nil {
+		return // no benign form to compare with: lexing and no-panic are all that can be said
+	}
+	if x.fullSkeleton(got, e.num != nil) != ref.skel {
+		x.report(class, pos, "%s changes the token structure of what PostgreSQL executes; query %q; emitted: %s", label, q, got.describe())
+		return
+	}
+	if _, _, problem := xCompareSlots(ref.run, got, e); problem != "" {
+		x.report(class, pos, "%s is not read back by PostgreSQL as the value the query denoted (%s); query %q; emitted: %s", label, problem, q, got.describe())
+		return
+	}
+	// a value that travels as a bound parameter must be the supplied value
+	for name, benign := range ref.in {
+		hostile, has := params[name]
+		if !has {
+			continue
+		}
+		for k, rv := range ref.run.params {
+			if !xSameValue(benign, rv) {
+				continue
+			}
+			if gv, ok := got.params[k]; !ok || !xSameValue(hostile, gv) {
+				x.report(class, pos, "%s: the bound parameter %s holds %#v instead of the supplied value %#v; query %q", label, k, gv, hostile, q)
+				return
+			}
+		}
+	}
+}
+
+// ---- class 1: long values ---------------------------------------------------------------------------------------
+
+func xLongValues() []string {
+	specials := []byte{'"', '\'', '`', '\\'}
+	var out []string
+	for _, rng := range [][2]int{{60, 70}, {120, 130}} {
+		for l := rng[0]; l <= rng[1]; l++ {
+			for _, c := range specials {
+				for p := 58; p <= 68 && p < l; p++ {
+					b := []byte(strings.Repeat("a", l))
+					b[p] = c
+					out = append(out, string(b))
+				}
+				b := []byte(strings.Repeat("a", l))
+				for p := 58; p <= 68 && p < l; p++ {
+					b[p] = c
+				}
+				out = append(out, string(b))
+			}
+		}
+	}
+	// two-byte characters so that byte 63 falls inside a character, then the special character
+	for _, c := range specials {
+		for _, n := range []int{29, 30, 31, 32} {
+			out = append(out, strings.Repeat("é", n)+string(c)+"aaaa"+string(c))
+		}
+	}
+	return out
+}
+
+func xLongFragmentValues() []string {
+	var out []string
+	for _, c := range []byte{'"', '\'', '`', '\\'} {
+		for p := 58; p <= 68; p++ {
+			b := []byte(strings.Repeat("a", 70))
+			b[p] = c
+			out = append(out, string(b))
+		}
+		for _, l := range []int{64, 128} {
+			b := []byte(strings.Repeat("a", l))
+			for p := 58; p <= 68 && p < l; p++ {
+				b[p] = c
+			}
+			out = append(out, string(b))
+		}
+	}
+	return out
+}
+
+// ---- class 3: values inlined into the SQL text of the traversal functions ------------------------------------------
+
+func xWhitespaceValues(maxLen int) []string {
+	alpha := []string{" ", "\t", "\n", "\r", "\u00a0", "a", "'"}
+	var out []string
+	var gen func(cur string, n int)
+	gen = func(cur string, n int) {
+		if cur != "" {
+			out = append(out, cur)
+		}
+		if n == 0 {
+			return
+		}
+		for _, a := range alpha {
+			gen(cur+a, n-1)
+		}
+	}
+	gen("", maxLen)
+	out = append(out, "a  b", "a   b", "a          b", " a", "a ", "  a  ", "a\tb", "a\t\tb", "a\nb", "a\r\nb", "a\rb", "a\u00a0b", "\u00a0a\u00a0",
+		" \t\n\r ", "a \n b", "a ' b", "' '", "a  ''  b", "x';\n--", "a\n-- b", "a\u2003b", "a\u2028b", "a\fb", "a\vb", "\u3000", "a \\ b", "a\\\n", "\ta\n")
+	seen := map[string]bool{}
+	uniq := out[:0]
+	for _, v := range out {
+		if !seen[v] {
+			seen[v] = true
+			uniq = append(uniq, v)
+		}
+	}
+	return uniq
+}
+
+// Cypher string literal that writes control characters with Cypher's escape sequences instead of the raw character.
+func xCyStringEscaped(v string) string {
+	r := strings.NewReplacer(`\`, `\\`, `'`, `\'`, "\n", `\n`, "\t", `\t`, "\r", `\r`, "\f", `\f`, "\b", `\b`)
+	return "'" + r.Replace(v) + "'"
+}
+
+type xFragShape struct {
+	group string                  // aggregated position name
+	query func(val string) string // val: the Cypher text of the value (a literal or $v)
+}
+
+func xFragmentShapes(full bool) []xFragShape {
+	var shapes []xFragShape
+	type ends struct {
+		name         string
+		onS, onE     bool
+		sKind, eKind string
+	}
+	add := func(fn, rel string, ep ends, pred string) {
+		shapes = append(shapes, xFragShape{
+			group: "traversal text, " + ep.name + ", " + pred,
+			query: func(val string) string {
+				sMap, eMap := "", ""
+				var where []string
+				for _, side := range []struct {
+					on   bool
+					name string
+					m    *string
+				}{{ep.onS, "s", &sMap}, {ep.onE, "e", &eMap}} {
+					if !side.on {
+						continue
+					}
+					switch pred {
+					case "where =":
+						where = append(where, side.name+".name = "+val)
+					case "property map":
+						*side.m = " {name: " + val + "}"
+					case "where in [..]":
+						where = append(where, side.name+".name in ["+val+", 'other']")
+					}
+				}
+				q := "match p = " + fn + "((s" + ep.sKind + sMap + ")" + rel + "(e" + ep.eKind + eMap + "))"
+				if len(where) > 0 {
+					q += " where " + strings.Join(where, " and ")
+				}
+				return q + " return p"
+			},
+		})
+	}
+	plain := []ends{{"start node", true, false, "", ""}, {"end node", false, true, "", ""}, {"both nodes", true, true, "", ""}}
+	kinded := []ends{{"start node, end node has a kind", true, false, "", ":NodeKind1"}, {"end node, start node has a kind", false, true, ":NodeKind1", ""}}
+	preds := []string{"where =", "property map", "where in [..]"}
+	if !full {
+		preds = preds[:2]
+	}
+	for _, fn := range []string{"shortestPath", "allShortestPaths"} {
+		for _, rel := range []string{"-[*..]->", "<-[*..]-"} {
+			for _, pred := range preds {
+				for _, ep := range plain {
+					add(fn, rel, ep, pred)
+				}
+				if full {
+					for _, ep := range kinded {
+						add(fn, rel, ep, pred)
+					}
+				}
+			}
+		}
+		if full {
+			for _, rel := range []string{"-[:EdgeKind1*1..]->", "<-[:EdgeKind1|EdgeKind2*1..]-"} {
+				for _, ep := range plain {
+					add(fn, rel, ep, "where =")
+				}
+			}
+		}
+	}
+	return shapes
+}
+
+func (x *xHarness) fragmentSweep(class string, values []string, full bool) {
+	values = append([]string(nil), values...)
+	x.shuffle(values)
+	benign := xExpect{str: func(s string) (string, bool) { return "benign", s == "benign" }, strictOthers: true}
+	for _, shape := range xFragmentShapes(full) {
+		forms := []string{"string literal", "$parameter"}
+		if full {
+			forms = append(forms, "string literal with escape sequences")
+		}
+		for _, form := range forms {
+			build := func(v string) (string, map[string]any) {
+				switch form {
+				case "string literal":
+					return shape.query(cyString(v)), nil
+				case "string literal with escape sequences":
+					return shape.query(xCyStringEscaped(v)), nil
+				default:
+					return shape.query("$v"), map[string]any{"v": v}
+				}
+			}
+			pos := shape.group + ", " + form
+			refQ, refP := build("benign")
+			ref := x.reference(refQ, refP, benign)
+			if ref.run == nil || ref.fragN == 0 {
+				x.perPosition[class+"/traversal shapes whose benign form is rejected or carries no value in SQL text"]++
+				continue
+			}
+			for _, v := range values {
+				if form == "string literal with escape sequences" && xCyStringEscaped(v) == cyString(v) {
+					continue
+				}
+				q, p := build(v)
+				x.verify(class, pos, "traversal text, "+form, fmt.Sprintf("value %q", v), ref, q, p, xExpect{str: func(s string) (string, bool) { return v, s == "benign" }, strictOthers: true})
+			}
+		}
+	}
+}
+
+// ---- class 2: long lists ------------------------------------------------------------------------------------------
+
+func xListElements() []string {
+	return []string{`a\`, `b"c`, `d,e`, `{f}`, `NULL`, ``, `'`, ` g `, `}`, `{`, `null`, `\"`, `h\\`, `"`, `{"a",b}`, `i\,`, "j\tk"}
+}
+
+func (x *xHarness) listSweep(class string) {
+	h := xListElements()
+	var lists [][]string
+	for _, n := range []int{1, 2, 16, 17, 18, 40} {
+		switch {
+		case n == 1:
+			for _, e := range h {
+				lists = append(lists, []string{e})
+			}
+		case n == 2:
+			m := 4 * x.maxLen // all ordered pairs over the first 4*bound elements
+			if m > len(h) {
+				m = len(h)
+			}
+			for _, a := range h[:m] {
+				for _, b := range h[:m] {
+					lists = append(lists, []string{a, b})
+				}
+			}
+		default:
+			for k := range h {
+				rot := make([]string, n)
+				same := make([]string, n)
+				for i := range rot {
+					rot[i] = h[(i+k)%len(h)]
+					same[i] = h[k]
+				}
+				lists = append(lists, rot, same)
+			}
+		}
+	}
+	if x.rng != nil {
+		x.rng.Shuffle(len(lists), func(i, j int) { lists[i], lists[j] = lists[j], lists[i] })
+	}
+	literal := func(elems []string) string {
+		parts := make([]string, len(elems))
+		for i, e := range elems {
+			parts[i] = cyString(e)
+		}
+		return "[" + strings.Join(parts, ", ") + "]"
+	}
+	type listShape struct {
+		name  string
+		query string // %s = the list expression
+	}
+	shapes := []listShape{
+		{"IN list", "match (n) where n.name in %s return n"},
+		{"= list", "match (n) where n.tags = %s return n"},
+		{"returned list", "match (n) return %s as l"},
+		{"SET list", "match (n) set n.tags = %s return n"},
+		{"property map list", "match (n {tags: %s}) return n"},
+		{"UNWIND list", "unwind %s as x return x"},
+		{"CREATE list", "create (n:NodeKind1 {tags: %s}) return n"},
+		{"any() over list", "match (n) where any(x in %s where n.name = x) return n"},
+		{"traversal text, IN list at the end node", "match p = shortestPath((s)-[*..]->(e)) where e.name in %s return p"},
+		{"traversal text, IN list at the start node", "match p = allShortestPaths((s)<-[:EdgeKind1*1..]-(e:NodeKind1)) where s.name in %s return p"},
+		{"traversal text, IN list at both nodes", "match p = shortestPath((s)-[*..]->(e)) where s.name in %[1]s and e.name in %[1]s return p"},
+		{"traversal text, = list at both nodes", "match p = allShortestPaths((s)-[*..]->(e)) where s.tags = %[1]s and e.tags = %[1]s return p"},
+	}
+	benignList := func(n int) []string {
+		out := make([]string, n)
+		for i := range out {
+			out[i] = "benign" + strconv.Itoa(i)
+		}
+		return out
+	}
+	expectFor := func(elems []string) xExpect {
+		return xExpect{strictOthers: true, str: func(s string) (string, bool) {
+			if !strings.HasPrefix(s, "benign") {
+				return "", false
+			}
+			i, err := strconv.Atoi(s[len("benign"):])
+			if err != nil || i < 0 || i >= len(elems) || s != "benign"+strconv.Itoa(i) {
+				return "", false
+			}
+			return elems[i], true
+		}}
+	}
+	forms := []string{"literal", "[]string parameter", "[]any parameter"}
+	refs := map[string]*xRef{}
+	for _, shape := range shapes {
+		for _, form := range forms {
+			build := func(elems []string) (string, map[string]any) {
+				switch form {
+				case "literal":
+					return fmt.Sprintf(shape.query, literal(elems)), nil
+				case "[]string parameter":
+					return fmt.Sprintf(shape.query, "$p"), map[string]any{"p": append([]string{}, elems...)}
+				default:
+					l := make([]any, len(elems))
+					for i, e := range elems {
+						l[i] = e
+					}
+					return fmt.Sprintf(shape.query, "$p"), map[string]any{"p": l}
+				}
+			}
+			pos := shape.name + ", " + form
+			for _, elems := range lists {
+				key := pos + "#" + strconv.Itoa(len(elems))
+				ref, ok := refs[key]
+				if !ok {
+					q, p := build(benignList(len(elems)))
+					ref = x.reference(q, p, expectFor(benignList(len(elems))))
+					refs[key] = ref
+				}
+				q, p := build(elems)
+				x.verify(class, pos, shape.name, fmt.Sprintf("list of %d elements %q", len(elems), elems), ref, q, p, expectFor(elems))
+			}
+		}
+	}
+}
+
+// ---- class 4: parameter Go types ----------------------------------------------------------------------------------
+
+type xParam struct {
+	name   string
+	value  any
+	benign any    // a harmless value of the same Go type (and sign, and length)
+	kind   string // string | strings | number | self (the value is its own reference: no-panic, lexing and binding only)
+	class  string // own deviation class, when the value belongs to a narrower class than param-types
+}
+
+func xParamValues() []xParam {
+	var out []xParam
+	for _, s := range []string{"x'y", `a\`, `"`, "a  b", " a\t", "x'; drop table node; --", `\'; select 1; --`, "$q$x$q$", "", "NULL", "é'ü"} {
+		out = append(out, xParam{fmt.Sprintf("string %q", s), s, "benign", "string", ""})
+	}
+	hostile := []string{`a\`, `b"c`, "x'y", `d,e`, `{f}`, "NULL", "", " g "}
+	for _, n := range []int{1, 3, 8} {
+		ss := append([]string{}, hostile[:n]...)
+		bs := make([]string, n)
+		as := make([]any, n)
+		ab := make([]any, n)
+		for i := range ss {
+			bs[i] = "benign" + strconv.Itoa(i)
+			as[i] = ss[i]
+			ab[i] = bs[i]
+		}
+		out = append(out, xParam{fmt.Sprintf("[]string %q", ss), ss, bs, "strings", ""}, xParam{fmt.Sprintf("[]any %q", ss), as, ab, "strings", ""})
+	}
+	self := func(name string, v any) { out = append(out, xParam{name, v, v, "self", ""}) }
+	self("empty []string", []string{})
+	self("nil []string", []string(nil))
+	self("empty []any", []any{})
+	self("nil []any", []any(nil))
+	self("empty []int", []int{})
+	self("nested []any{[]any{\"x'y\"}}", []any{[]any{"x'y"}})
+	self("nested []any{[]string{\"x'y\"}}", []any{[]string{"x'y"}})
+	self("nested [][]string", [][]string{{"x'y", `a\`}, {`"`}})
+	self("nested []any{[]any{}, []any{}}", []any{[]any{}, []any{}})
+	self("mixed []any{\"a'\", 1}", []any{"a'", 1})
+	self("[]any{nil}", []any{nil})
+	self("[]any{1, 2}", []any{1, 2})
+	self("[]any{1.5}", []any{1.5})
+	self("[]any{true}", []any{true})
+	self("[]any{map}", []any{map[string]any{"k'": "v'"}})
+	self("[]int", []int{1, -2, 3})
+	self("[]int64", []int64{1, -2})
+	self("[]int32", []int32{1, -2})
+	self("[]int16", []int16{1, -2})
+	self("[]int8", []int8{1, -2})
+	self("[]uint8", []uint8("x'y"))
+	self("[]uint64", []uint64{1, math.MaxUint64})
+	self("[]float64", []float64{1.5, -2.25, math.NaN(), math.Inf(1)})
+	self("[]float32", []float32{1.5})
+	self("[]bool", []bool{true, false})
+	self("map with hostile key and value", map[string]any{"k'\"\\": "v'\"; --"})
+	self("empty map", map[string]any{})
+	self("nil map", map[string]any(nil))
+	self("map with nested list", map[string]any{"k": []any{"x'y", 1, nil, map[string]any{"a": `b\`}}})
+	self("map[string]string", map[string]string{"k'": "v'"})
+	self("map[int]string", map[int]string{1: "v'"})
+	for _, v := range []any{int(5), int(-5), int(0), int8(-128), int16(-32768), int32(math.MinInt32), int64(math.MinInt64), int64(math.MaxInt64),
+		uint(5), uint8(255), uint16(65535), uint32(math.MaxUint32), uint64(math.MaxUint64)} {
+		rv := reflect.ValueOf(v)
+		b := reflect.New(rv.Type()).Elem()
+		if rv.CanInt() {
+			if rv.Int() < 0 {
+				b.SetInt(-77)
+			} else {
+				b.SetInt(77)
+			}
+		} else {
+			b.SetUint(77)
+		}
+		out = append(out, xParam{fmt.Sprintf("%T %v", v, v), v, b.Interface(), "number", ""})
+	}
+	for _, v := range []float64{1.5, -1.5, 0, 5, 1e300, -1e300, 1e-300, 123456789.125, math.MaxFloat64, math.SmallestNonzeroFloat64} {
+		b := 77.5
+		if v < 0 {
+			b = -77.5
+		}
+		out = append(out, xParam{fmt.Sprintf("float64 %v", v), v, b, "number", ""})
+	}
+	out = append(out, xParam{"float32 1.5", float32(1.5), float32(77.5), "number", ""}, xParam{"float32 -0.1", float32(-0.1), float32(-77.5), "number", ""})
+	// non-finite floats have no numeric spelling: the correct rendering is the quoted word cast to a float type
+	// ('NaN'::float8), i.e. a string token where a finite value gives a number token, so they are their own reference
+	// (no panic, the text lexes, nothing else in the statement changes); before ab43f23 they were written as bare words
+	out = append(out, xParam{"float64 NaN", math.NaN(), math.NaN(), "self", "param-float-nonfinite"}, xParam{"float64 +Inf", math.Inf(1), math.Inf(1), "self", "param-float-nonfinite"},
+		xParam{"float64 -Inf", math.Inf(-1), math.Inf(-1), "self", "param-float-nonfinite"}, xParam{"float32 NaN", float32(math.NaN()), float32(math.NaN()), "self", "param-float-nonfinite"},
+		xParam{"float64 negative zero", math.Copysign(0, -1), -77.5, "number", ""})
+	self("bool true", true)
+	self("bool false", false)
+	self("nil", nil)
+	self("time.Time", time.Date(2020, 1, 2, 3, 4, 5, 6, time.UTC))
+	self("time.Duration", 90*time.Second)
+	self("struct{}", struct{}{})
+	str := "x'y"
+	self("*string", &str)
+	self("json.Number", json.Number("1e5"))
+	self("error value", fmt.Errorf("x'y"))
+	self("func", func() {})
+	self("chan", make(chan int))
+	return out
+}
+
+func (x *xHarness) paramSweep(class string) {
+	shapes := []struct{ name, query string }{
+		{"comparison", "match (n) where n.name = $p return n"},
+		{"comparison, parameter on the left", "match (n) where $p = n.name return n"},
+		{"inequality", "match (n) where n.name <> $p return n"},
+		{"ordering comparison", "match (n) where n.name > $p return n"},
+		{"IN parameter", "match (n) where n.name in $p return n"},
+		{"parameter IN property", "match (n) where $p in n.tags return n"},
+		{"property map", "match (n {name: $p}) return n"},
+		{"relationship property map", "match (a)-[r:EdgeKind1 {name: $p}]->(b) return r"},
+		{"comparison and SET", "match (n) where n.name = $p set n.other = $p return n"},
+		{"CREATE property map", "create (n:NodeKind1 {name: $p}) return n"},
+		{"returned parameter", "match (n) return $p as v"},
+		{"starts with", "match (n) where n.name starts with $p return n"},
+		{"traversal text, comparison at the start node", "match p = shortestPath((s)-[*..]->(e)) where s.name = $p return p"},
+		{"traversal text, comparison at the end node", "match p = allShortestPaths((s:NodeKind1)<-[:EdgeKind1*1..]-(e)) where e.name = $p return p"},
+		{"traversal text, comparison at both nodes", "match p = shortestPath((s)-[*..]->(e)) where s.name = $p and e.name = $p return p"},
+		{"traversal text, IN parameter at the end node", "match p = shortestPath((s)-[*..]->(e)) where e.name in $p return p"},
+		{"traversal text, IN parameter at both nodes", "match p = allShortestPaths((s)-[*..]->(e)) where s.name in $p and e.name in $p return p"},
+		{"traversal text, parameter IN property", "match p = shortestPath((s)-[*..]->(e)) where $p in e.tags return p"},
+		{"traversal text, property map at the start node", "match p = shortestPath((s {name: $p})-[*..]->(e)) return p"},
+		{"traversal text, property map at both nodes", "match p = allShortestPaths((s {name: $p})<-[*..]-(e {name: $p})) return p"},
+		{"traversal text, starts with", "match p = shortestPath((s)-[*..]->(e)) where e.name starts with $p return p"},
+	}
+	values := xParamValues()
+	refs := map[string]*xRef{}
+	if x.rng != nil {
+		x.rng.Shuffle(len(values), func(i, j int) { values[i], values[j] = values[j], values[i] })
+	}
+	for _, shape := range shapes {
+		for _, pv := range values {
+			pv := pv
+			var e xExpect
+			switch pv.kind {
+			case "string":
+				e = xExpect{strictOthers: true, str: func(s string) (string, bool) { return pv.value.(string), s == "benign" }}
+				if strings.Contains(shape.name, "starts with") {
+					e.strictOthers = false // the value may become part of a pattern literal; where it is passed on as it is, it must be exact
+				}
+			case "strings":
+				var elems []string
+				rv := reflect.ValueOf(pv.value)
+				for i := 0; i < rv.Len(); i++ {
+					elems = append(elems, rv.Index(i).Interface().(string))
+				}
+				e = xExpect{strictOthers: true, str: func(s string) (string, bool) {
+					for i := range elems {
+						if s == "benign"+strconv.Itoa(i) {
+							return elems[i], true
+						}
+					}
+					return "", false
+				}}
+			case "number":
+				value := pv.value
+				e = xExpect{strictOthers: true, num: func(s string) (func(string) bool, bool) {
+					if s != "77" && s != "77.5" {
+						return nil, false
+					}
+					return func(got string) bool {
+						rv := reflect.ValueOf(value)
+						switch {
+						case rv.CanInt():
+							want := strconv.FormatInt(rv.Int(), 10)
+							return got == strings.TrimPrefix(want, "-")
+						case rv.CanUint():
+							return got == strconv.FormatUint(rv.Uint(), 10)
+						default:
+							f, err := strconv.ParseFloat(got, 64)
+							return err == nil && f == math.Abs(rv.Float())
+						}
+					}, true
+				}}
+			default:
+				e = xExpect{strictOthers: true}
+			}
+			refKey := fmt.Sprintf("%s|%s|%T|%v", shape.name, pv.kind, pv.benign, pv.benign)
+			ref, cached := refs[refKey]
+			if !cached || pv.kind == "self" {
+				ref = x.reference(shape.query, map[string]any{"p": pv.benign}, e)
+				refs[refKey] = ref
+			}
+			cls := class
+			if pv.class != "" {
+				cls = pv.class
+			}
+			x.verify(cls, shape.name, shape.name, "parameter "+pv.name, ref, shape.query, map[string]any{"p": pv.value}, e)
+		}
 	}
 }
